@@ -241,3 +241,47 @@ def growing_restart_variant(cfg, rng, nan_fault=True):
         cfg["failpoint"] = dict(name="lagrange", at=int(rng.integers(1, 4)))
     cfg["_variant"] = "growing+soft-restart+increase_npt"
     return cfg
+
+
+def long_growing_cfg(rng, deterministic=True, safety=None):
+    """Configurations whose GROWING phase is long and eventful (found with the line-coverage probe: the restart / exit branches
+    inside the growing-phase safety step were never reached by the generic workload): consistent linear or mildly nonlinear
+    inverse problem (m < n) in many dimensions, one or two initial directions, start 10-100 rhobeg away from the solution set so
+    that the run converges (tiny steps => safety steps) while the set is still growing; safety variant reduce_delta /
+    full_geom_step / default; optional soft restarts."""
+    n = int(rng.integers(5, 11))
+    m = int(rng.integers(2, n - 1))
+    kind = gen.pick(rng, ["linear", "linear", "sinlin"])
+    spec = dict(kind=kind, n=n, m=m, pseed=int(rng.integers(0, 2 ** 31)), cond=10.0, scale=1.0)
+    rhobeg = float(10.0 ** rng.uniform(-1.5, 0))
+    if kind == "linear":
+        A, b = gen.linear_data(n, m, spec["pseed"], 10.0, 1.0)
+        xs = np.linalg.lstsq(A, b, rcond=None)[0]
+        dvec = A.T @ rng.normal(size=m)
+        x0 = xs + dvec / np.linalg.norm(dvec) * rhobeg * float(10.0 ** rng.uniform(0.5, 2))
+    else:
+        x0 = rng.normal(size=n)
+    up = {"growing.ndirs_initial": int(rng.integers(1, 3))}
+    safety = safety or gen.pick(rng, ["reduce_delta", "full_geom_step", "full_geom_step", "default"])
+    if safety == "reduce_delta":
+        up["growing.safety.reduce_delta"] = True
+    elif safety == "full_geom_step":
+        up["growing.safety.full_geom_step"] = True
+    if rng.random() < 0.4:
+        up["growing.do_geom_steps"] = True
+    if rng.random() < 0.3:
+        up["growing.num_new_dirns_each_iter"] = int(rng.integers(0, 3))
+    if rng.random() < 0.5:
+        up["restarts.use_restarts"] = True
+        if rng.random() < 0.25:
+            up["restarts.use_soft_restarts"] = False
+    cfg = dict(prob=spec, x0=x0.tolist(), lower=None, upper=None, user_params=up,
+               args=dict(maxfun=int(gen.pick(rng, [30, 45, 60])), rhobeg=rhobeg, rhoend=rhobeg * 1e-5))
+    if not deterministic and rng.random() < 0.4:
+        spec["noise"] = float(10.0 ** rng.uniform(-4, -2))
+        spec["nseed"] = int(rng.integers(0, 2 ** 31))
+        cfg["args"]["objfun_has_noise"] = bool(rng.random() < 0.5)
+        if rng.random() < 0.5:
+            cfg["nsamples"] = dict(kind="const", v=int(rng.integers(2, 4)))
+    cfg["_variant"] = "long-growing/" + safety
+    return cfg
